@@ -127,14 +127,15 @@ Definition ancestors_fixed := ancestors_gen true.
 (* ------------------------------------------------------------------ GetCommonAncestor *)
 Inductive cres :=
 | COk (r : row)
-| CNil           (* service returns (nil, nil); the handler dereferences nil -> panic -> gin Recovery -> 500 *)
+| CNil           (* service returns (nil, nil); the handler answers ErrAncestorNotFound 400 (fix 5c09f8d) *)
 | CErrNotFound   (* ErrHeaderNotFound 404 (a given hash, or a previous header, is not stored) *)
 | CErrAnc        (* ErrAncestorNotFound 400 *)
-| CPanic.        (* empty list: headers[0] index out of range -> 500 *)
+| CPanic         (* service called with an empty list: headers[0] index out of range (not reachable through the endpoint) *)
+| CBind.         (* handler: an empty / null list is refused with ErrBindBody 400 (fix 5ab472d) *)
 
 (* the HTTP status the handler produces for each outcome *)
 Definition cres_status (c : cres) : Z :=
-  match c with COk _ => 200 | CNil => 500 | CErrNotFound => 404 | CErrAnc => 400 | CPanic => 500 end.
+  match c with COk _ => 200 | CNil => 400 | CErrNotFound => 404 | CErrAnc => 400 | CPanic => 500 | CBind => 400 end.
 
 Definition all_eq (l : list row) : bool :=
   match l with [] => true | x :: r => forallb (fun y => N.eqb (id y) (id x)) r end.
@@ -173,6 +174,10 @@ Definition common_ancestor (s : store) (l : list N) : cres :=
       end
     end
   end.
+
+(* POST /chain/header/commonAncestor: the handler refuses an empty list before calling the service *)
+Definition common_ancestor_endpoint (s : store) (l : list N) : cres :=
+  match l with [] => CBind | _ => common_ancestor s l end.
 
 (* ================================================================== declarative side *)
 (* [reach s t x]: row x is [t]'s row or one of its ancestors, following stored parent links *)
